@@ -240,6 +240,63 @@ def log_pressure_contract(en: E.Engine):
   en.ensure('nodal_log_pressure_tendency == - sum_j u.grad(ln ps)[j] dsigma[j]', z3.BoolVal(False) if kind == 'raise' else E._real(r) == -CG(N))
 
 
+def implicit_terms_contract(en: E.Engine):
+  """PrimitiveEquations.implicit_terms on the column of one generic spectral coefficient (m, l) (the Laplacian multiplies it by the eigenvalue
+  lambda_l: C02): the documented linear operator, for every number of layers."""
+  from dinosaur import primitive_equations as pe
+  import jax.numpy as jnp
+  from vlib.pyvc.libspec import _reg
+  coords, vert = _coords(en)
+  lam = en.real('laplacian_eigenvalue')
+  coords.horizontal.laplacian = E.SymCallable(lambda en_, x: arrays._elementwise(en_, x, lam, arrays._arith('Mult'), '*') if arrays._is_seq(x) else lam * E._real(x),
+                                              'Grid.laplacian == eigenvalue * coefficient (C02 contract)')
+  _reg(en, jnp.zeros_like, lambda en_, x: (E.SymSeq(x.length, lambda i: z3.RealVal(0), z3.RealSort(), 'zeros') if arrays._is_seq(x) else ({k: z3.RealVal(0) for k in x} if isinstance(x, dict) else z3.RealVal(0))),
+       'jnp.zeros_like')
+  TRf = F('reference_temperature.at')
+  self, kappa = _pe_self(en, coords, _col(TRf, 'reference_temperature'))
+  self.vertical_matmul_method = None
+  R = self.physics_specs.R
+  # row sums as ghost partial sums, one symbol per (matrix, vector) product in call order
+  prods = []
+
+  def h_matvec(en_, w, x):
+    if not (matrix._is_mat(w) and arrays._is_seq(x)):
+      raise E.Unsupported('_vertical_matvec outside column mode')
+    D = z3.Function(en_.fresh_name('DSUM'), z3.IntSort(), z3.IntSort(), z3.RealSort())
+    prods.append((D, w, x))
+    rows = w.rows if w.rows is not None else 1
+    return E.SymSeq(rows, lambda g_: D(E.to_z3(g_), E.to_z3(x.length)), z3.RealSort(), 'matvec')
+  en.contracts[E._callable_key(pe._vertical_matvec)] = h_matvec
+  en.trusted.add("callee contract: _vertical_matvec(W, x)[g] == sum_h W[g, h] x[h] (einsum 'gh,...hml->...gml', A8)")
+  Gm = matrix.SymMat(N, N, lambda j, k: R * VM.g0_(E.to_z3(j), E.to_z3(k)), 'G')
+  CSs = ghost(en, lambda j: d_(j))
+  Hs = VM.h_spec(CSs, kappa)
+  Hm = matrix.SymMat(N, N, lambda r_, s_: _rename_uf(Hs(E.to_z3(r_), E.to_z3(s_)), VM.TR, TRf), 'H')
+  en.contracts[E._callable_key(pe.get_geopotential_weights)] = lambda en_, c, r=None: Gm            # callee contracts: the documented matrices (proved in C03)
+  en.contracts[E._callable_key(pe.get_temperature_implicit_weights)] = lambda en_, c, t, k=None: Hm
+  LNPS = en.real('log_surface_pressure')
+  state = E.Obj(vorticity=_col(VOR, 'vorticity'), divergence=_col(DIV, 'divergence'), temperature_variation=_col(TV, 'temperature_variation'), log_surface_pressure=LNPS,
+                tracers={'q': _col(F('q.at'), 'q')})
+  en.contracts[E._callable_key(pe.State)] = lambda en_, **kw: E.Obj(**kw)
+  en.cover('requires: valid sigma coordinates')
+  kind, out = en.invoke(en.getattr(self, 'implicit_terms'), state)
+  if kind == 'raise' or len(prods) != 3:
+    en.ensure(f'implicit_terms runs with three vertical matrix products ({out}, {len(prods)})', False)
+    return
+  k = en.int('k')
+  en.assume(z3.And(k >= 0, k < N))
+  h = en.int('h')
+  en.assume(z3.And(h >= 0, h < N))
+  (Dg, Wg, xg), (Dh, Wh, xh), (Dp, Wp, xp) = prods
+  en.ensure('the geopotential product contracts the documented G with the temperature variation', z3.And(Wg.get(k, h) == R * VM.g0_(k, h), xg.get(h) == TV(h)))
+  en.ensure('the temperature product contracts -H (documented) with the divergence', z3.And(Wh.get(k, h) == -Hm.get(k, h), xh.get(h) == DIV(h)))
+  en.ensure('the surface-pressure product contracts the layer thicknesses with the divergence', z3.And(Wp.get(0, h) == d_(h), xp.get(h) == DIV(h)))
+  en.ensure('divergence: -lambda (sum_h G[k, h] T\'[h] + R T_ref[k] ln ps)', out.divergence.get(k) == -(lam * (Dg(k, N) + R * TRf(k) * LNPS)))
+  en.ensure('temperature: -sum_h H[k, h] divergence[h] (as the product with -H)', out.temperature_variation.get(k) == Dh(k, N))
+  en.ensure('log surface pressure: -sum_h dsigma[h] divergence[h]', out.log_surface_pressure.get(0) == -Dp(0, N))
+  en.ensure('vorticity and tracers have no implicit term', z3.And(out.vorticity.get(k) == 0, out.tracers['q'].get(k) == 0))
+
+
 # ---- C04: the temperature equation does not depend on the reference split -----------------------------------------------------------------
 
 TABS = F('absolute_temperature.at')
@@ -574,6 +631,10 @@ def clauses():
       'C05sw': [
           Clause('smt:get_density_ratios == hydrostatic inter-layer coupling: rho[j] / rho[i] for layers above, 1 for layers below, 0 on the diagonal (all layer counts)', 'smt',
                  ['dinosaur.shallow_water.get_density_ratios'], rc(density_ratios_contract, 3), replay=replay_density, group='pyvc-col'),
+      ],
+      'C03': [
+          Clause('smt:PrimitiveEquations.implicit_terms == documented linear operator on every spectral column (G, H, thickness products; Laplacian eigenvalue; all layer counts)', 'smt',
+                 [PE + 'PrimitiveEquations.implicit_terms', PE + 'get_geopotential_diff', PE + 'get_temperature_implicit'], rc(implicit_terms_contract, 7), group='pyvc-col'),
       ],
       'C13': [
           Clause('smt:cumulative_sigma_integral / sigma_integral: prefix, suffix and total sums of x dsigma; ends at the total; down + up - total == local contribution; methods agree (all layer counts)', 'smt',
